@@ -77,11 +77,17 @@ CHECKS['C12'] = dict(
          'send_after of any of them, delays to send_before of the head when several groups wait, removes the sent '
          'records from every remaining group (no duplicate inside or across batches) and re-arms the timer for the new '
          'head. Lemmas instantiate the windows: out_queue gives [20,120]..500 ms after arrival, out_delay_queue gives '
-         '[1020,1120]..1200 ms, i.e. at least one second after any sighting less than a second before arrival.',
+         '[1020,1120]..1200 ms, i.e. at least one second after any sighting less than a second before arrival. '
+         'Classification is proved exact for every cache and question list (_QueryResponse.add_mcast_question_response / '
+         'answers): probe -> now; otherwise seen in the cache less than 1000 ms before the query -> protected queue; otherwise '
+         'a single SRV/A/AAAA/NSEC question -> now; otherwise -> aggregation queue. Routing is proved '
+         '(QueryHandler.handle_assembled_query): mcast_now is sent in the same step, mcast_aggregate only enters out_queue, '
+         'mcast_aggregate_last_second only enters out_delay_queue, both timed from the first packet; the two queues never share a group. '
+         'A pending wake-up no later than the oldest deadline is an invariant (armed).',
     design_ref='DESIGN.md section 4 C12',
     note='timers and sends are ghost logs (loop_model) attached to the real call sites; construct_outgoing_multicast_answers '
          'is assumed to put exactly the given records in the packet; the event loop is assumed to fire a timer no earlier '
-         'than its due time')
+         'than its due time; async_response assumed not to touch queues/timers/clock; TC deferral in _listener not under contract')
 NOT_APPLICABLE = {
     'C07': 'end-to-end liveness over several hosts and lossy delivery: no per-function contract can express it '
            '(DESIGN.md section 6)',
